@@ -92,6 +92,8 @@ def run(rep, tier):
     run_jobs(rep, __name__, jobs)
     rep.floor('SIB-B-ADDSUB', 8 * len(tys) * len(scales))
     rep.extra['sibling_jobs'] = len(jobs)
+    from . import deps
+    deps.run(rep, tier, ('R', 'W-shifted'))      # proofs of the summaries this check relies on
     rep.explanation = ('(a) All 657 reference forms of the 12 operator traits, the 5 compound assignments, the 9 reversed equality impls and the 2 string conversions are '
                        'recognised on MIR as pure forwarders (one call of the base impl with the parameters in order, result returned / stored to *self unchanged): they '
                        'compute exactly the base function, panics included. (b) Every integer-operand base impl (9 types, both positions) of +, -, *, /, %, their checked variants, '
